@@ -356,3 +356,21 @@ def tables_leg(v, acc, timeout=600):
     for r in recs:
         if r.get("kind") == "mismatch":
             v.fail("tables-replay", {"why": r["why"]})
+
+
+def diffrename_leg(v, acc, pairs=60, timeout=900):
+    """The diff stage on the real code: the edit script of (edited copy, corpus document) keeps its shape when token ids are renamed
+    (the most frequent word gets id 10, '\\n' as a rune): nothing may depend on which word has which number."""
+    out = os.path.join(sub("out"), "diffrename.ndjson")
+    if os.path.exists(out):
+        os.remove(out)
+    rc, txt, _ = go_overlay_test("v2", V2_SOURCES + ["v2/diffrename_driver_test.go"], "^TestVerifDiffRenaming$", timeout=timeout,
+                                 env={"VERIF_OUT": out, "VERIF_SEED": str(vlib.SEED), "VERIF_PAIRS": str(pairs)})
+    recs = read_ndjson(out)
+    summ = [r for r in recs if r.get("kind") == "summary"]
+    if vlib.build_failed(txt) or not summ or summ[0]["vectors"] == 0:
+        raise vlib.Inconclusive("diff renaming driver failed:\n" + txt[-2500:])
+    acc.evaluations += summ[0]["vectors"]; acc.extra["diff_renaming"] = summ[0]
+    for r in recs:
+        if r.get("kind") == "mismatch":
+            v.fail("diff-renaming", r)
